@@ -83,6 +83,12 @@ pub fn new_log() -> LogRef {
 }
 
 /// A `Read` + `BufRead` source driven by a schedule, with optional fault injection.
+impl std::fmt::Debug for SchedReader {
+    fn fmt(&self, f: &mut std::fmt::Formatter<'_>) -> std::fmt::Result {
+        write!(f, "SchedReader({} bytes, at {}, {})", self.data.len(), self.pos, self.sched.name())
+    }
+}
+
 pub struct SchedReader {
     data: Vec<u8>,
     pos: usize,
@@ -170,7 +176,14 @@ impl Read for SchedReader {
         if buf.is_empty() {
             return Ok(0);
         }
-        let n = self.next_size(buf.len());
+        // a window handed out by fill_buf() and not yet consumed is served first
+        let n = if self.window > 0 {
+            let n = self.window.min(buf.len());
+            self.window -= n;
+            n
+        } else {
+            self.next_size(buf.len())
+        };
         buf[..n].copy_from_slice(&self.data[self.pos..self.pos + n]);
         self.pos += n;
         let mut log = self.log.borrow_mut();
